@@ -91,7 +91,8 @@ def handle (f : List String) : String :=
         else if closes != "1" then s!"fail:session-closed-{closes}-times"
         else if drained != "1" then "fail:connection-still-tracked-after-close"
         else "ok"
-      s!"{id}\t{boolStr (m == res)}\t{orc}\t{m} depth={Framing.depthOf { plus := false, preauth := true } (probe shape n)}"
+      let depth := evs.foldl (fun m e => match e with | .depthAt k => max m k | _ => m) 0
+      s!"{id}\t{boolStr (m == res)}\t{orc}\t{m} depth={depth}"
   | [id, "leak", _, _, excess, conns] =>
     let orc := if conns != "0" then s!"fail:connections-still-tracked@{conns}"
                else if excess != "0" && !excess.startsWith "-" then s!"fail:goroutines-left-behind@{excess}"
